@@ -3,7 +3,7 @@
    extracted Coq datatypes; there is no Extract Constant. *)
 Require Extraction.
 Require Import ExtrOcamlBasic.
-From GLMM Require Half IntFn BitUtil.
+From GLMM Require Half IntFn BitUtil Ulp.
 Extraction Language OCaml.
 Extraction "models.ml" Half.toFloat32 Half.toFloat16 Half.packHalf2x16 Half.unpackHalf2x16 Half.packHalf4x16 Half.unpackHalf4x16 Half.packHalfL Half.unpackHalfL
   IntFn.norm IntFn.umod IntFn.bitfieldReverse IntFn.bitCount IntFn.findLSB IntFn.findMSB IntFn.bitfieldExtract IntFn.bitfieldInsert IntFn.uaddCarry IntFn.usubBorrow IntFn.umulExtended IntFn.imulExtended IntFn.mask_T
@@ -11,4 +11,5 @@ Extraction "models.ml" Half.toFloat32 Half.toFloat16 Half.packHalf2x16 Half.unpa
   BitUtil.isMultiple BitUtil.findNSB BitUtil.mask BitUtil.bitfieldRotateRight BitUtil.bitfieldRotateLeft BitUtil.bitfieldFillOne BitUtil.bitfieldFillZero
   BitUtil.lowestBitValue BitUtil.highestBitValue BitUtil.powerOfTwoAbove BitUtil.powerOfTwoBelow BitUtil.powerOfTwoNearest
   BitUtil.f_ceilMultiple BitUtil.f_floorMultiple BitUtil.f_roundMultiple BitUtil.pow_int BitUtil.pow_uint BitUtil.sqrt_int BitUtil.sqrt_uint BitUtil.mod_int BitUtil.mod_uint
-  BitUtil.factorial BitUtil.nlz.
+  BitUtil.factorial BitUtil.nlz
+  Ulp.nextafter Ulp.nextFloat Ulp.prevFloat Ulp.nextFloatN Ulp.prevFloatN Ulp.floatDistance Ulp.equalULP_scalar Ulp.equalULP_vec.
